@@ -119,6 +119,21 @@ func init() {
 				tick("lease+"),
 			},
 		}
-		return []*hist.Scenario{a, b, c, e, f, g}
+		// the prune jobs take a limited batch: whatever part of a key's completed chain
+		// a tick removes, a later seek must not let a successor overtake a revived
+		// predecessor
+		h := &hist.Scenario{
+			ID: "C05/partial-prune+seek", Prop: "C05", Depth: d(tier, 5, 6), Drain: true, PastForeign: true,
+			Cfg: model.Cfg{Topics: []string{"T0"}, Subs: []model.SubCfg{
+				{Name: "S0", Topic: "T0", Ordered: true},
+			}},
+			Prelude: []model.Op{pubN("T0", "K1", "K1", "K1", "K1"), pull("S0", 1), ack("S0", "oldest"), pull("S0", 1), ack("S0", "oldest"), pull("S0", 1), ack("S0", "oldest")},
+			Alphabet: []model.Op{
+				job("prune-completed-deliveries", 0, 1), job("prune-completed-deliveries", 0, 100),
+				seekT("S0", "before-all"), seekT("S0", "after-0"),
+				pull("S0", 1), pull("S0", 10), tick("lease+"),
+			},
+		}
+		return []*hist.Scenario{a, b, c, e, f, g, h}
 	}
 }
